@@ -215,7 +215,17 @@ class Scenario:
                 form = node[f"svc_{phase}"]
                 stop = anyio.Event()
 
+                from asphalt.core import current_context as _cur
+
+                app_ctx = _cur()  # what the component sees as its context (it stands for the root context)
+                counter[0] += 1
+                res_tid = counter[0]
+
                 async def idle() -> None:
+                    # the service adds something to the application's context - not to its own - with a teardown callback: that is
+                    # one more teardown step of the root context
+                    app_ctx.add_resource(object(), f"svc_res{res_tid}", teardown_callback=lambda: sc.log("td-run", res_tid, form="resource-added-by-service"))
+                    sc.log("td-reg", res_tid, by=path, phase=phase + "-service")
                     await stop.wait()
 
                 def stop_action() -> None:
